@@ -787,3 +787,35 @@ def simplify_lets(body):
                     d = distribute(e)
                     if d is not None:
                         st["e"] = d
+    # (4) distribute a result constructor over an if-expression in return position: `Ok(if c { a } else { b })` is `if c { Ok(a) } else { Ok(b) }`
+    def ctor_over_if(e):
+        if not (isinstance(e, dict) and e.get("k") == "Call" and len(e.get("args", [])) == 1 and (callee(e) or "").split("::")[-1] in ("Ok", "Err", "Some")):
+            return None
+        r = e["args"][0]
+        while isinstance(r, dict) and r.get("k") == "Block" and not r.get("stmts") and r.get("expr") is not None:
+            r = r["expr"]
+        if not (isinstance(r, dict) and r.get("k") == "If" and "e" in r):
+            return None
+
+        def mk(branch):
+            t = branch
+            while isinstance(t, dict) and t.get("k") == "Block" and not t.get("stmts") and t.get("expr") is not None:
+                t = t["expr"]
+            if isinstance(branch, dict) and branch.get("k") == "Block" and branch.get("stmts"):
+                return None
+            inner = dict(_deep(e), args=[t])
+            d = ctor_over_if(inner)
+            return {"k": "Block", "stmts": [], "expr": d if d is not None else inner, "ty": e.get("ty"), "sp": branch.get("sp")}
+        tb, eb = mk(r["t"]), mk(r["e"])
+        if tb is None or eb is None:
+            return None
+        return {"k": "If", "c": r["c"], "t": tb, "e": eb, "ty": e.get("ty"), "sp": e.get("sp")}
+    if isinstance(root, dict) and root.get("k") == "Block" and root.get("expr") is not None:
+        d = ctor_over_if(root["expr"])
+        if d is not None:
+            root["expr"] = d
+    for n in walk(root):
+        if n.get("k") == "Ret" and "e" in n:
+            d = ctor_over_if(n["e"])
+            if d is not None:
+                n["e"] = d
